@@ -131,7 +131,10 @@ class Gen:
             if flavor == "gen" and r < 0.45:
                 ye = rng.choice([self.value(), self.value(), "None", params[0] if params else self.value()])
                 y = f"yield {ye}" if rng.random() < 0.7 else f"_s = yield {ye}"
-                if rng.random() < 0.25:
+                if rng.random() < 0.15:
+                    # the same yield instruction executed several times, exceptions thrown in are handled
+                    lines.extend([f"for _i in range({rng.choice([2, 3])}):", "    try:", "        " + y, "    except Err:", "        pass"])
+                elif rng.random() < 0.25:
                     lines.extend(["try:", "    " + y, "except Err:", "    pass"])
                 else:
                     lines.append(y)
@@ -375,7 +378,7 @@ def build(rng, name, nfuncs=12, opts=None, live=4, abandon=False):
                     order = list(slots)
                     rng.shuffle(order)
                     for s in order:
-                        entries.append(["step", s])
+                        entries.append(["throw", s] if abandon and rng.random() < 0.15 else ["step", s])
     # finish everything that is still live: stepped round-robin to exhaustion (main stratum) or abandoned
     for s in list(slots):
         if abandon and rng.random() < 0.6:
